@@ -164,13 +164,33 @@ func rulesC11(c *Ctx) {
 	name := FnName(decoder)
 	c.Analysed(name)
 
+	// --- by constant propagation ------------------------------------------------------------------
+	// whatever the decoder's shape, it is evaluated on every literal made of up to three atoms (plain characters,
+	// each escape of the grammar, a multi-byte character) and compared with the single-pass reading of the
+	// grammar's table.  Where this decides every literal it is the verdict; the structural reading below adds
+	// the table comparison and the critical-pair argument when the decoder has a shape it recognises.
+	cpDecided, cpBad := c11ConstProp(decoder, want)
+	if cpDecided {
+		c.Check(cpBad == "", "C11.UNESCAPE", name+": decoded literals", p.Pos(decoder.Pos()), "every literal of up to three atoms over the grammar's escapes decodes to the single-pass reading (decided by constant propagation through the decoder)", cpBad)
+	}
+	und := func(pos token.Pos, msg string) {
+		if cpDecided {
+			c.OK("C11.UNESCAPE", name+": shape", p.Pos(pos), "shape not recognised by the structural reading ("+msg+"); decided by constant propagation instead")
+			c.OK("C11.TABLE", name+": escape pairs", p.Pos(pos), "every escape of the grammar decodes to its meaning (by constant propagation)")
+			c.Floor("C11.UNESCAPE", 2)
+			c.Floor("C11.TABLE", 1)
+			c.Floor("C11.NOREWRITE", 1)
+			return
+		}
+		c.Undecided("C11.UNESCAPE", name, p.Pos(pos), msg)
+	}
 	// --- pipeline -------------------------------------------------------------------------------
 	if len(decoder.Blocks) != 1 {
 		// a hand-written scan loop over the literal body: decided iteration-wise
 		if scannerDecoder(c, name, decoder, want) {
 			return
 		}
-		c.Undecided("C11.UNESCAPE", name, p.Pos(decoder.Pos()), "the decoder is neither a straight-line pipeline of string transformers nor a single scan loop over the literal body")
+		und(decoder.Pos(), "the decoder is neither a straight-line pipeline of string transformers nor a single scan loop over the literal body")
 		return
 	}
 	rets := returnsOf(decoder)
@@ -179,12 +199,12 @@ func rulesC11(c *Ctx) {
 	for steps := 0; v != ssa.Value(decoder.Params[0]); steps++ {
 		call, ok := v.(*ssa.Call)
 		if !ok || steps > 32 {
-			c.Undecided("C11.UNESCAPE", name, p.Pos(decoder.Pos()), "unrecognised transformer in the decoder pipeline: "+v.String())
+			und(decoder.Pos(), "unrecognised transformer in the decoder pipeline: "+v.String())
 			return
 		}
 		cal, _ := calleeOf(call.Common())
 		if cal == nil || cal.Pkg() == nil || cal.Pkg().Path() != "strings" {
-			c.Undecided("C11.UNESCAPE", name, p.Pos(call.Pos()), "unrecognised transformer in the decoder pipeline: "+call.String())
+			und(call.Pos(), "unrecognised transformer in the decoder pipeline: "+call.String())
 			return
 		}
 		args := call.Call.Args
@@ -193,7 +213,7 @@ func rulesC11(c *Ctx) {
 		case !isMethod && (cal.Name() == "TrimPrefix" || cal.Name() == "TrimSuffix"):
 			sv, ok := constString(args[1])
 			if !ok {
-				c.Undecided("C11.UNESCAPE", name, p.Pos(call.Pos()), "non-constant trim argument")
+				und(call.Pos(), "non-constant trim argument")
 				return
 			}
 			stages = append(stages, strStage{kind: strings.ToLower(cal.Name()), a: sv, pos: call.Pos()})
@@ -208,7 +228,7 @@ func rulesC11(c *Ctx) {
 				}
 			}
 			if !ok1 || !ok2 || !all {
-				c.Undecided("C11.UNESCAPE", name, p.Pos(call.Pos()), "replace pass with non-constant or bounded arguments")
+				und(call.Pos(), "replace pass with non-constant or bounded arguments")
 				return
 			}
 			stages = append(stages, strStage{kind: "replace", a: av, b: bv, pos: call.Pos()})
@@ -218,13 +238,13 @@ func rulesC11(c *Ctx) {
 			// strings.NewReplacer from constant pairs
 			pairs, why := replacerPairs(c, args[0])
 			if pairs == nil {
-				c.Undecided("C11.UNESCAPE", name, p.Pos(call.Pos()), "cannot read the replacer's pair table: "+why)
+				und(call.Pos(), "cannot read the replacer's pair table: "+why)
 				return
 			}
 			stages = append(stages, strStage{kind: "replacer", pairs: pairs, pos: call.Pos()})
 			v = args[1]
 		default:
-			c.Undecided("C11.UNESCAPE", name, p.Pos(call.Pos()), "unrecognised strings function "+cal.Name())
+			und(call.Pos(), "unrecognised strings function "+cal.Name())
 			return
 		}
 	}
@@ -1012,4 +1032,59 @@ func scannerDecoder(c *Ctx, name string, decoder *ssa.Function, want map[string]
 	c.Floor("C11.TABLE", 1)
 	c.Floor("C11.NOREWRITE", 1)
 	return true
+}
+
+// c11ConstProp evaluates the literal decoder by constant propagation on every literal of up to three atoms and
+// compares with the single-pass reading of the escape table.  decided is false when some literal could not be
+// evaluated (a construct the propagation does not model).
+func c11ConstProp(decoder *ssa.Function, want map[string]string) (decided bool, bad string) {
+	if len(decoder.Params) != 1 {
+		return false, ""
+	}
+	type atom struct{ raw, val string }
+	atoms := []atom{{"a", "a"}, {"n", "n"}, {"é", "é"}, {" ", " "}}
+	var keys []string
+	for k := range want {
+		keys = append(keys, k)
+	}
+	sort.Strings(keys)
+	for _, k := range keys {
+		atoms = append(atoms, atom{k, want[k]})
+	}
+	var run func(prefixRaw, prefixVal string, depth int) bool
+	checked := 0
+	run = func(raw, val string, depth int) bool {
+		text := `"` + raw + `"`
+		oracle := func(v ssa.Value) (AV, bool) {
+			if prm, isPrm := v.(*ssa.Parameter); isPrm && prm == decoder.Params[0] {
+				return avStr(text), true
+			}
+			return AV{}, false
+		}
+		res, err := Decide(decoder, oracle, nil)
+		if err != "" || len(res) != 1 {
+			return false
+		}
+		got, isS := avString(res[0])
+		if !isS {
+			return false
+		}
+		checked++
+		if got != val && bad == "" {
+			bad = fmt.Sprintf("the literal %s decodes to %q, the grammar's escape table read in a single pass gives %q: the literal does not denote the intended string", text, got, val)
+		}
+		if depth == 3 {
+			return true
+		}
+		for _, a := range atoms {
+			if !run(raw+a.raw, val+a.val, depth+1) {
+				return false
+			}
+		}
+		return true
+	}
+	if !run("", "", 0) {
+		return false, ""
+	}
+	return checked > 0, bad
 }
